@@ -64,6 +64,9 @@ func anyProgram(rt *rapid.T, s *vh.Session) (runCase, *gen.Builder) {
 		b.Conv.Settings.Wrap = rapid.SampledFrom([]string{"errors", "using"}).Draw(rt, "wrap-mode")
 		b.Conv.Settings.WrapPkg = b.Prog.Module + "/vwrap"
 	}
+	if custom && !zeroMix && rapid.IntRange(0, 3).Draw(rt, "recursive-late") == 0 {
+		b.RecursiveLate("R0")
+	}
 	n := rapid.IntRange(1, 6).Draw(rt, "nmethods")
 	for i := 0; i < n; i++ {
 		kind := rapid.IntRange(0, 9).Draw(rt, "method-kind")
